@@ -400,6 +400,9 @@ fn gen_sauce(rng: &mut Rng) -> SauceD {
     }
 }
 
+/// enumerated part: 10 writers x (256 comment counts + 36 title + 21 author + 21 group lengths)
+const N_ENUM: u64 = 10 * (256 + 36 + 21 + 21);
+
 #[derive(Default)]
 pub struct C11 {}
 
@@ -407,10 +410,22 @@ impl C11 {
     fn case_for(&self, ctx: &Ctx, k: u64) -> Case11 {
         let mut rng = ctx.rng(k);
         let ext = WRITERS[(k % WRITERS.len() as u64) as usize];
-        let mode = match (k / WRITERS.len() as u64) % 4 {
-            0 | 1 => "meta",
-            2 => "cut",
-            _ => "foreign",
+        // the first N_ENUM cases enumerate, for every writer, each comment count 0..=255 and each title / author / group
+        // length 0..=35 / 20 / 20 (the other fields stay random)
+        let forced: Option<(u8, usize)> = if k < N_ENUM {
+            let j = (k / WRITERS.len() as u64) as usize;
+            Some(if j < 256 { (0, j) } else if j < 292 { (1, j - 256) } else if j < 313 { (2, j - 292) } else { (3, j - 313) })
+        } else {
+            None
+        };
+        let mode = if forced.is_some() {
+            "meta"
+        } else {
+            match (k / WRITERS.len() as u64) % 4 {
+                0 | 1 => "meta",
+                2 => "cut",
+                _ => "foreign",
+            }
         };
         // widths: loader default for the cut tests, 1..=1000 (format limits) for the metadata tests
         let default_w = if ext == "bin" { 160 } else { 80 };
@@ -448,6 +463,15 @@ impl C11 {
             d.layers[0].cells.push(doc::CellD { x: w - 1, y: h - 1, ch: 0x59, fg: 7, bg: 0, attr: 0, fp: 0 });
         }
         d.sauce = Some(gen_sauce(&mut rng));
+        if let (Some((field, n)), Some(sd)) = (forced, d.sauce.as_mut()) {
+            let text = |rng: &mut Rng, n: usize| -> Vec<u8> { (0..n).map(|i| if i + 1 == n { 0x21 + rng.usize(0x5E) as u8 } else { *rng.pick(&[b' ', b'a', 0xE1, b'Z', 0x03]) }).collect() };
+            match field {
+                0 => sd.comments = (0..n).map(|i| format!("comment line {i}").into_bytes()).collect(),
+                1 => sd.title = text(&mut rng, n),
+                2 => sd.author = text(&mut rng, n),
+                _ => sd.group = text(&mut rng, n),
+            }
+        }
         if mode == "meta" && matches!(ext, "ans" | "asc" | "bin" | "icy") && rng.chance(1, 3) {
             // font names of every length: the SAUCE field holds 22 characters, built-in names are up to 31 long
             d.fonts.clear();
@@ -521,14 +545,14 @@ impl Prop for C11 {
         "C11"
     }
     fn rule(&self) -> &'static str {
-        "for each of the ten writers that append SAUCE (ans asc avt pcb bin xb tnd adf idf icy): (meta) a document with generated title/author/group of every length 0..=35/20/20 over CP437 incl. blanks, control-range glyphs (0x01..0x1F) and byte strings that are also valid UTF-8, 0..=255 comment lines, flag combinations, widths 1..=1000 (format limits) and font-0 names of 0..=40 characters (built-in pages and custom fonts) is saved with SAUCE; a reference SAUCE reader written from the Revision-5 layout parses the trailer (writer side) and Buffer::get_sauce() after loading is compared with the per-variant projection (reader side: texts, comments, width, ice flag, spacing/aspect flags, font name); (cut) content vs content+trailer with the loader's default width/ice/font: SauceData::extract must report sauce_header_len == trailer length and both loads (for ans/asc also under an unclaimed extension, the ANSI fallback) must give the same size and cells; content variants ending in SAUCE00 / COMNT look-alikes or in one or more 0x1A bytes of their own (text and binary formats), empty, 1/127/128/129/133/192/193 bytes; (foreign) the same with a trailer written by the harness's reference writer (NUL padding). distinct_nontrivial = distinct (writer, mode, title/author length, comment count, width, content class) fingerprints"
+        "for each of the ten writers that append SAUCE (ans asc avt pcb bin xb tnd adf idf icy): (enumerated) every comment count 0..=255 and every title / author / group length 0..=35 / 20 / 20; (meta) a document with generated title/author/group of every length 0..=35/20/20 over CP437 incl. blanks, control-range glyphs (0x01..0x1F) and byte strings that are also valid UTF-8, 0..=255 comment lines, flag combinations, widths 1..=1000 (format limits) and font-0 names of 0..=40 characters (built-in pages and custom fonts) is saved with SAUCE; a reference SAUCE reader written from the Revision-5 layout parses the trailer (writer side) and Buffer::get_sauce() after loading is compared with the per-variant projection (reader side: texts, comments, width, ice flag, spacing/aspect flags, font name); (cut) content vs content+trailer with the loader's default width/ice/font: SauceData::extract must report sauce_header_len == trailer length and both loads (for ans/asc also under an unclaimed extension, the ANSI fallback) must give the same size and cells; content variants ending in SAUCE00 / COMNT look-alikes or in one or more 0x1A bytes of their own (text and binary formats), empty, 1/127/128/129/133/192/193 bytes; (foreign) the same with a trailer written by the harness's reference writer (NUL padding). distinct_nontrivial = distinct (writer, mode, title/author length, comment count, width, content class) fingerprints"
     }
     fn meta(&self, ctx: &Ctx) -> Value {
         json!({"floor_evaluations": 2000, "floor_distinct": ctx.tier.pick(1500u64, 20000u64),
                "assumptions": ["the ice flag and font name a file carries are those of the document (ice mode, name of font 0), which is what the writer stores", "text fields are compared with trailing blanks/NULs stripped (padding)"]})
     }
     fn total(&mut self, ctx: &Ctx) -> u64 {
-        ctx.tier.pick(36_000, 400_000)
+        N_ENUM + ctx.tier.pick(36_000, 400_000)
     }
     fn run_case(&mut self, ctx: &mut Ctx, k: u64) {
         let case = self.case_for(ctx, k);
